@@ -184,6 +184,11 @@ pub fn worker_main<W: Workload>(w: &W, tier: Tier, base_seed: u64, start: u64, s
                         o.log.push(format!("file {name} {d:016x}"));
                     }
                 }
+                if std::env::var_os("SKASIM_DUMP_LOG").is_some() {
+                    for l in &o.log {
+                        eprintln!("LOG {i} {l}");
+                    }
+                }
                 let line = json!({
                     "i": i,
                     "seed": seed,
